@@ -148,7 +148,11 @@ def compute(
                     continue
                 seen.add(ss)
 
-                freq[pos][ss.id] += weight
+                # synsets inferred through an expand lexicon are not
+                # part of the wordnet: they have no weight of their own,
+                # but the walk continues through them
+                if ss.id in freq[pos]:
+                    freq[pos][ss.id] += weight
 
                 if ss not in hypernym_cache:
                     hypernym_cache[ss] = ss.hypernyms()
